@@ -11,7 +11,7 @@ use {
         simplifying::fol::sigma_0::{classic::CLASSIC, ht::HT, intuitionistic::INTUITIONISTIC},
         syntax_tree::{asp::mini_gringo as asp, fol::sigma_0 as fol},
         translating::{
-            classical_reduction::completion::Completion as _,
+            classical_reduction::completion::{Completion as _, atomic_formula_from},
             formula_representation::tau_star::TauStar as _,
         },
         verifying::{
@@ -531,6 +531,26 @@ impl Task for ExternalEquivalenceTask {
                 .replace_placeholders(&placeholders)
                 .completion(self.user_guide.input_predicates())
                 .expect("tau_star did not create a completable theory");
+
+            // An output predicate that does not occur in the program is empty in every stable model:
+            // it receives the empty completed definition (the one completion produces for
+            // predicates that occur in rule bodies only)
+            for predicate in self
+                .user_guide
+                .output_predicates()
+                .difference(&theory.predicates())
+            {
+                let head = atomic_formula_from(predicate);
+                let variables = head.variables().into_iter().collect();
+                theory.formulas.push(
+                    fol::Formula::BinaryFormula {
+                        connective: fol::BinaryConnective::Equivalence,
+                        lhs: fol::Formula::AtomicFormula(head).into(),
+                        rhs: fol::Formula::disjoin([]).into(),
+                    }
+                    .quantify(fol::Quantifier::Forall, variables),
+                );
+            }
 
             if self.simplify {
                 let mut portfolio = [INTUITIONISTIC, HT, CLASSIC].concat().into_iter().compose();
